@@ -554,6 +554,22 @@ func (p c09) inject(c *core.Ctx, w *c09World, faults []fault, bexp world.Expect,
 	sc := w.sc
 	idx := base.PopIndex()
 	// reachedness per fault (on the fault-free model: the fault itself does not change who is created before it)
+	// attemptedOutside: the creation of the named component was started outside every lookup issued by user
+	// code (inside one, a failure goes to that code, which may swallow it - nothing to judge then)
+	attemptedOutside := func(name string) bool {
+		depth := 0
+		for _, e := range r.Log.Events() {
+			switch {
+			case e.Kind == "lookup":
+				depth++
+			case e.Kind == "lookup-end":
+				depth--
+			case depth == 0 && e.Kind == "pp-before-inst" && e.Who == name:
+				return true
+			}
+		}
+		return false
+	}
 	anyReached, allUnreached := false, true
 	earlyOnly := true
 	for _, f := range faults {
@@ -565,7 +581,9 @@ func (p c09) inject(c *core.Ctx, w *c09World, faults []fault, bexp world.Expect,
 			reached = true
 		default:
 			pi := idx[base.Nodes[f.Node]]
-			reached, unreached = bexp.Must[pi], !bexp.May[pi]
+			// (an eager component is attempted by the refresh itself sooner or later: only for a lazy one does it
+			// matter whether anybody outside a swallowed lookup asked for it)
+			reached, unreached = bexp.Must[pi] && (!world.Palette[sc.Nodes[f.Node].Type].Lazy || attemptedOutside(sc.Nodes[f.Node].DisplayName())), !bexp.May[pi]
 			if f.Kind == "pp" && f.CB == "early" {
 				// only reached when an early reference of that component is actually requested
 				// reached = the callback fired outside any service-locator lookup (inside one, the error goes
@@ -647,7 +665,7 @@ func (p c09) inject(c *core.Ctx, w *c09World, faults []fault, bexp world.Expect,
 							reachedNonRunner = true
 						}
 					}
-				} else if bexp.Must[idx[base.Nodes[f.Node]]] {
+				} else if bexp.Must[idx[base.Nodes[f.Node]]] && (!world.Palette[sc.Nodes[f.Node].Type].Lazy || attemptedOutside(sc.Nodes[f.Node].DisplayName())) {
 					reachedNonRunner = true
 				}
 			}
@@ -692,6 +710,17 @@ func (p c09) inject(c *core.Ctx, w *c09World, faults []fault, bexp world.Expect,
 		}
 	} else {
 		c.Count("ambiguous_faults", 1)
+		// a fault that fired only inside lookups issued by user code is that code's to handle - with one
+		// recorded exception: a component created during the failed attempt stays alive holding the
+		// half-built one although Run returns nil (the D14 history class, a known finding)
+		if r.Outcome() == "ok" && r.Tracer != nil && earlyRefOfFailedAttemptEscaped(r.Tracer.Events()) {
+			for _, f := range faults {
+				if (f.Kind == "init" || f.Kind == "aps") && countEvents(r, f.Kind, sc.Nodes[f.Node].DisplayName()) > 0 && core.IsKnown("C09", "F-C09-dependent-of-failed-attempt") {
+					c.Fail("F-C09-dependent-of-failed-attempt", fmt.Sprintf("fault %v fired inside a swallowed lookup only; App.Run returned nil while a component created during the failed attempt survives", faults), detail())
+					break
+				}
+			}
+		}
 	}
 	return true
 }
